@@ -57,6 +57,11 @@ class GotranCCodePrinter(C99CodePrinter):
             return "INFINITY" if value > 0 else "(-INFINITY)"
         return self._print(str(value))
 
+    def _print_re(self, expr):
+        # sympy writes Abs(a**b) as a**re(b) when it cannot tell that b is real;
+        # all quantities are doubles here
+        return self._print(expr.args[0])
+
     def _print_Abs(self, expr):
         # sympy prints the integer function abs() for arguments it knows to be integer valued
         # (e.g. floor(x)), but all quantities are doubles here (and <stdlib.h> is not included)
